@@ -20,7 +20,7 @@ BUDGET = {
 }
 ANCHORS = ["utils:lint"]
 
-CORRUPTIONS = ["no_type", "bad_type", "fanin_on_source", "second_driver", "bbout_second_load", "bbout_nonbuf_load", "dotted_name", "pin_deleted", "pin_retyped", "undriven_gate", "unloaded_node", "single_input", "fanin_on_x", "fanin_on_bbout", "undriven_pin", "pin_direction_swapped"]
+CORRUPTIONS = ["no_type", "bad_type", "fanin_on_source", "second_driver", "bbout_second_load", "bbout_nonbuf_load", "dotted_name", "pin_deleted", "pin_retyped", "undriven_gate", "unloaded_node", "single_input", "fanin_on_x", "fanin_on_bbout", "undriven_pin", "pin_direction_swapped", "two_dots_known_instance", "two_dots_unknown_instance"]
 PRODUCERS = ["verilog", "fast_verilog", "bench", "adder", "mux", "popcount", "add_subcircuit", "fill_blackbox", "limit_fanin", "limit_fanout", "ternary", "acyclic_unroll", "insert_registers", "unroll", "sequential_unroll", "sensitization_transform", "sensitivity_transform", "miter_tied", "copy", "relabel", "strip_blackboxes_then_nothing", "supergates", "remove_unloaded"]
 
 
@@ -134,6 +134,15 @@ def corrupt(cg, c, cors):
             if src:
                 g.add_edge(src, "nosuchinst.p")
             applied.append(kind)
+        elif kind in ("two_dots_known_instance", "two_dots_unknown_instance"):
+            # names with two dots: the documented rule looks at the part before the FIRST dot
+            insts = sorted(c.blackboxes)
+            src = pick(lambda m: ty[m] in G.ALL_GATES + ["input"])
+            if src and (insts or kind == "two_dots_unknown_instance"):
+                nm = f"{rng.choice(insts)}.int.n" if kind == "two_dots_known_instance" else "nosuch.u0.d"
+                g.add_node(nm, type="buf", output=True)
+                g.add_edge(src, nm)
+                applied.append(kind)
         elif kind == "pin_deleted":
             n = pick(lambda n: ty[n] in ("bb_input", "bb_output"))
             if n:
